@@ -91,7 +91,7 @@ Print Assumptions C19_sqlstate_table.
 (** The sqlstate attribute before args; sqlstate_classifier falls back to default_classifier,
     pyodbc_classifier to UNKNOWN. *)
 Theorem C19_sqlstate_attribute_first : forall search e,
-  truthy (e_sqlstate e) = true -> sqlstate_text search e = Some (pv_text (e_sqlstate e)).
+  truthy (e_sqlstate e) = true -> sqlstate_text search e = Some (py_str (e_sqlstate e)).
 Proof. exact sqlstate_attribute_first. Qed.
 Print Assumptions C19_sqlstate_attribute_first.
 
@@ -102,6 +102,14 @@ Theorem C19_sqlstate_fallbacks : forall e,
   (forall t, sqlstate_text search_bracketed e = Some t -> pyodbc_classifier e = sqlstate_table (codes t)).
 Proof. exact sqlstate_fallbacks. Qed.
 Print Assumptions C19_sqlstate_fallbacks.
+
+(** "ints of any size": an int sqlstate that CPython refuses to convert to text (4301 digits or more) yields UNKNOWN from
+    both SQLSTATE classifiers. *)
+Theorem C19_huge_int_sqlstate : forall e z t,
+  e_sqlstate e = {| pv_kind := VInt z; pv_text := t |} -> str_limit <= Z.abs z ->
+  sqlstate_classifier e = UNKNOWN /\ pyodbc_classifier e = UNKNOWN.
+Proof. exact huge_int_sqlstate_unknown. Qed.
+Print Assumptions C19_huge_int_sqlstate.
 
 (** Each optional-library classifier equals default_classifier when its library is absent. *)
 Theorem C19_optional_absent : forall w e, optional_classifier false w e = default_classifier e.
